@@ -95,16 +95,20 @@ def plan(prop, tier):
                   Alpha="{97, 10}", MaxLen=4),
                 T("rand", "spans", 1500, 30000), T("astralr", "astral", 500, 10000), T("mlr", "anchors", 1000, 20000)]
     if prop == "C03":
-        return [G("caps", Leaves="<-LvAB", Quants="<-QSmall", MaxSize=5 if q else 6, MaxGroups=3, Repl2="<-ReplGroups",
-                  MaxLen=3 if q else 4),
+        return [dict(G("caps", Leaves="<-LvAB", Quants="<-QSmall", MaxSize=5 if q else 6, MaxGroups=3, Repl2="<-ReplGroups",
+                       MaxLen=3 if q else 4), trace=not q),
                 G("caps12", Leaves="<-LvG12", Quants="<-QOptOnly", MaxSize=2, MaxGroups=13, Repl2="<-ReplG12", MaxLen=3,
                   invs=["T1_RoundTrip", "T3_Leftmost"]),
-                G("nest", Leaves="<-LvNest", Quants="<-QBasic" if q else "<-QBasicLazy", MaxSize=5, MaxGroups=9, Shapes="<-ShapesNoGrp", MaxLen=3,
-                  Repl2="<-ReplG2", invs=["T1_RoundTrip", "T3_Leftmost"]),
+                dict(G("nest", Leaves="<-LvNest", Quants="<-QBasic" if q else "<-QBasicLazy", MaxSize=5, MaxGroups=9, Shapes="<-ShapesNoGrp", MaxLen=3,
+                       Repl2="<-ReplG2", invs=["T1_RoundTrip", "T3_Leftmost"]), trace=True),
                 G("mlcaps", Leaves="<-LvMlCaps", Quants="<-QOptOnly", MaxSize=5 if q else 6, MaxGroups=9, FlagSets="<-FlagsM",
                   Shapes="<-ShapesNoGrp", Alpha="{97, 98, 10}", MaxLen=3, Repl2="<-ReplG2", invs=["T1_RoundTrip", "T3_Leftmost"]),
                 G("brefalt", Leaves="<-LvBrefAlt", Quants="<-QBrefAlt", MaxSize=4, MaxLen=4, MaxGroups=2,
                   Shapes="<-ShapesNoGrp", Repl2="<-ReplG2", invs=["T1_RoundTrip", "T3_Leftmost"]),
+                dict(G("nestclear", Leaves="<-LvNestClear", Quants="<-QNestClear", MaxSize=4, MaxLen=3 if q else 4, MaxGroups=2,
+                       Shapes="<-ShapesNcgSeq", Alpha="{97, 98, 99}", Repl2="<-ReplG2", invs=["T1_RoundTrip"]), trace=True),
+                G("clsparen", Leaves="<-LvClsParen", Quants="<-QPlusOnly", MaxSize=4, MaxLen=2, MaxGroups=3, Shapes="<-ShapesGrpSeq",
+                  Alpha="{97, 98, 40}", Repl2="<-ReplG2", invs=["T1_RoundTrip", "T3_Leftmost"]),
                 T("rand", "groups", 2000, 40000), T("mlg", "mlgroups", 1000, 20000)]
     if prop == "C04":
         return [G("part", Leaves="<-LvCore", Quants="<-QSmall", MaxSize=4, MaxLen=3 if q else 4,
@@ -174,6 +178,8 @@ def plan(prop, tier):
                        invs=["T1_RoundTrip", "T18_SearchSound", "T21_OpSem"]), **o),        # literal prefixes that overlap themselves
                 dict(G("catcase", Leaves="<-LvCatCase", Quants="<-QCatCase", MaxSize=3, MaxLen=3, FlagSets="<-FlagsI", Shapes="<-ShapesSeq",
                        Alpha="{97, 65, 49}", invs=["T1_RoundTrip", "T2_OrderFree", "T21_OpSem"]), **o),
+                dict(G("seqinit", Leaves="<-LvSeqInit", Quants="<-QSeqInit", MaxSize=4, MaxLen=3 if q else 4, Shapes="<-ShapesSeq",
+                       invs=["T1_RoundTrip", "T2_OrderFree", "T21_OpSem"]), **o),
                 dict(G("casei", Leaves="<-LvCaseOpt", Quants="<-QBasicLazy", MaxSize=3, MaxLen=3, FlagSets="<-FlagsI",
                        Alpha="{233, 201, 955}", invs=["T1_RoundTrip", "T2_OrderFree", "T18_SearchSound"]), **o),
                 T("rand", "general", 2000, 40000, unopt=True), T("case", "case", 1000, 20000, unopt=True),
@@ -237,20 +243,25 @@ def plan(prop, tier):
                  "consts": {"Depth": 14, "RegIds": "{1, 2, 3}", "ItIds": "{1, 2, 3}", "PoolName": '"wide"'}},
                 T("threads", "general", 800, 15000, mode="threads")] + ([] if q else [SUITE])
     if prop == "C19":
-        return [G("bref", Leaves="<-LvBref", Quants="<-QSmall", MaxSize=5, MaxLen=4 if q else 5,
-                  FlagSets="<-OnlyNoFlags"),
+        return [dict(G("bref", Leaves="<-LvBref", Quants="<-QSmall", MaxSize=5, MaxLen=4 if q else 5,
+                       FlagSets="<-OnlyNoFlags"), trace=not q),          # (thorough: also validated as a trace - two-model zone)
                 G("brefi", Leaves="<-LvBrefI", Quants="<-QBasic", MaxSize=4, MaxLen=3, FlagSets="<-FlagsI",
                   Alpha="{97, 65, 98}"),
                 G("brefalt", Leaves="<-LvBrefAlt", Quants="<-QBrefAlt", MaxSize=4, MaxLen=4 if q else 5, MaxGroups=2,
                   Shapes="<-ShapesNoGrp", FlagSets="<-OnlyNoFlags"),
                 K("bref10", Toks='"bref10"', MaxToks=4 if q else 5, Alpha="{97, 48, 49}", MaxLen=3, invs=[]),   # \10 against \1 + 0
+                dict(G("nestclear", Leaves="<-LvNestClear", Quants="<-QNestClear", MaxSize=4, MaxLen=3 if q else 4, MaxGroups=2,
+                       Shapes="<-ShapesNcgSeq", Alpha="{97, 98, 99}", Repl2="<-ReplG2", invs=["T1_RoundTrip"]), trace=True),
                 T("rand", "brefs", 2000, 40000)]
     if prop == "C20":
-        return [G("laws", Leaves="<-LvLaws", Quants="<-QLaws", MaxSize=3 if q else 4, MaxLen=3, MaxGroups=2,
-                  Variants='{"laws"}', invs=["T1_RoundTrip", "T16_Laws"]),
+        return [G("laws", Leaves="<-LvLaws", Quants="<-QLaws", MaxSize=3, MaxLen=3 if q else 4, MaxGroups=2,
+                  Variants='{"laws"}', invs=["T1_RoundTrip", "T16_Laws"])] + \
+               ([] if q else [G("laws4", Leaves="<-LvLaws", Quants="<-QBasic", MaxSize=4, MaxLen=3, MaxGroups=2,
+                                Variants='{"laws"}', invs=["T1_RoundTrip", "T16_Laws"])]) + [\
+
                 G("lawsi", Leaves="<-LvAB", Quants="<-QBasic", MaxSize=3, MaxLen=3, FlagSets="<-AllFlags",
                   Alpha="{97, 65, 10}", Variants='{"laws"}', invs=["T16_Laws"]),
-                G("lawsfix", Leaves="<-LvLawFix" if q else "<-LvOptFix", Quants="<-QLawFix" if q else "<-QFix", MaxSize=3 if q else 4, MaxLen=5, Alpha="{97, 98}",
+                G("lawsfix", Leaves="<-LvLawFix", Quants="<-QLawFix", MaxSize=3 if q else 4, MaxLen=5, Alpha="{97, 98}",
                   Variants='{"laws"}', invs=["T1_RoundTrip", "T16_Laws"]),
                 G("lawscat", Leaves="<-LvCatCase", Quants="<-QCatCase", MaxSize=3, MaxLen=3, FlagSets="<-FlagsI", Shapes="<-ShapesSeq",
                   Alpha="{97, 65, 49}", Variants='{"laws"}', invs=["T1_RoundTrip", "T16_Laws", "T21_OpSem"]),
@@ -278,6 +289,7 @@ def run_check(prop, tier):
         if st["type"] == "gen":
             info, stats, viols = orch.tlc_gen_replay(tag, st.get("module", "MCGen.tla"), st["consts"], st["invs"],
                                                      also_unopt=st.get("also_unopt", False), facts=st.get("facts", False),
+                                                     trace=st.get("trace", False),
                                                      init=st.get("init", "GInit"), nxt=st.get("next", "GNext"))
             tot["states"] += info["distinct"]
             tot["transitions"] += info["states"]
@@ -295,7 +307,8 @@ def run_check(prop, tier):
             stage_info.append({"stage": st["tag"], "consts": {k: str(v) for k, v in st["consts"].items()},
                                "invariants": st["invs"], "tlc_states": info["distinct"], "wall_s": info["wall_s"],
                                "behaviours": stats["behaviours"],
-                               "facts_patterns_checked": stats.get("facts_patterns_checked", 0)})
+                               "facts_patterns_checked": stats.get("facts_patterns_checked", 0),
+                               "trace_events_validated": stats.get("trace_events", 0)})
         elif st["type"] == "machine":
             consts = {"Leaves": "<-LvMachine", "Quants": "<-QMachine", "MaxSize": st["size"], "Shapes": "<-MShapes",
                       "FlagSets": "<-MFlags", "MaxGroups": 2, "SeqCost": 0, "AltCost": 1, "MAlpha": "{97, 98}",
